@@ -65,6 +65,7 @@ HEADER_FAULTS = (
     'leading-blank-line',       # declaration not at the start: not well-formed
     'leading-space',            # same
     'doctype-not-utf8',         # a byte that is not UTF-8 in the DOCTYPE line: not well-formed
+    'quotes-mismatched',        # a literal opened with one quote character and closed with the other
 )
 # ... and header spellings about which the property only says that is_lmf and
 # load must agree
@@ -142,6 +143,9 @@ class MutSer(xmlw._Ser):
         self.n_el = getattr(self, 'n_el', 0) + 1
         if self.s['comments'] and self.n_el % 4 == 1 and level >= 1:
             self.out.append(f'{pad}<!-- c{self.n_el}: id="x" & <not a tag> -->{nl}')
+        if self.s['comments'] and self.n_el % 8 == 5 and level >= 1:
+            # a processing instruction may hold anything but '?>' - tag look-alikes too
+            self.out.append(f'{pad}<?wnv p{self.n_el} <Lexicon id="ghost" version="9"> ?>{nl}')
         if self.s['blank_lines'] and self.n_el % 5 == 2 and nl:
             self.out.append('\n')
         a = self.attrs_of(el, pad)
@@ -445,6 +449,14 @@ def _header(cls: str, hdr: str, version: str, arg: int):
         bad = (b'\xff', b'\xc3', b'\xe2\x82')[arg % 3]
         return e(decl + '\n') + raw[:cut] + bad + raw[cut:] + b'\n', \
             'invalid UTF-8 byte in the DOCTYPE line', False
+    if cls == 'quotes-mismatched':
+        dtd = f'http://globalwordnet.github.io/schemas/WN-LMF-{version}.dtd'
+        alts = (('<?xml version="1.0\' encoding=\'UTF-8"?>', doctype),
+                ('<?xml version=\'1.0" encoding="UTF-8\'?>', doctype),
+                (decl, f'<!DOCTYPE LexicalResource SYSTEM "{dtd}\'>'),
+                (decl, f'<!DOCTYPE LexicalResource SYSTEM \'{dtd}">'))
+        a, b = alts[arg % len(alts)]
+        return e(a + '\n' + b + '\n'), 'literal closed with the other quote character', False
     # variants: nothing claimed except that is_lmf and load agree
     if cls == 'bom':
         return b'\xef\xbb\xbf' + e(hdr), 'UTF-8 byte order mark', None
